@@ -304,6 +304,10 @@ def finish(ctx):
             new_violations.append(v)
     failed_obl = [o for o in ctx.obligations if not o[1]]
     disagreements = ctx.corr['disagreements']
+    if os.environ.get('VERIF_DUMP'):
+        os.makedirs(os.path.join(VERIF, 'replays'), exist_ok=True)
+        json.dump(dict(new=new_violations, known={k: v[1] for k, v in known_seen.items()}),
+                  open(os.path.join(VERIF, 'replays', ctx.pid + '-all.json'), 'w'), indent=1, default=str)
     lines = []
     for fid, (f, v) in sorted(known_seen.items()):
         lines.append('KNOWN-FINDING: property=%s %s' % (ctx.pid, f.get('what', fid)))
